@@ -161,6 +161,9 @@ func hasConflictMatchToken(me *MatchToken, next []any) bool {
 				return true
 			}
 		case token.Token:
+			if n == me.Tok { // a token class (e.g. IDENT) also matches the literal (e.g. keyword "if")
+				return true
+			}
 		default:
 			panic("unreachable")
 		}
